@@ -179,3 +179,25 @@ pub fn apply<const N: usize>(s: &mut OrSWotSet<N>, source: usize, op: &SetOp) ->
         s.insert_with_source(source, op.key, op.stamp.hlc())
     }
 }
+
+
+/// Runs `f` under one of three wall clocks (hook H-clock): 0 = the real one (years after every generated stamp),
+/// 1 = one hour after the datacake epoch (every generated stamp lies far in the future of this process), 2 = 60 000 000 s
+/// after it (between the generators' bases). The replicated set never consults a wall clock: what a replica accepts,
+/// lists in a difference or merges depends on the stamps alone, so every oracle has to hold under all three
+/// (since the seeded change `C05n`, which compared peer stamps with the local wall clock).
+pub fn with_wall<T>(mode: u8, f: impl FnOnce() -> T) -> T {
+    let secs = match mode % 3 {
+        0 => None,
+        1 => Some(3_600u64),
+        _ => Some(60_000_000u64),
+    };
+    if let Some(secs) = secs {
+        datacake_crdt::verif::set_wall(Some(std::rc::Rc::new(move |_node| Some(std::time::Duration::from_secs(secs)))));
+    }
+    let out = f();
+    if secs.is_some() {
+        datacake_crdt::verif::set_wall(None);
+    }
+    out
+}
